@@ -7,7 +7,8 @@ State space (product bounds, exhaustive; see RULE): compiled programs built thro
           crossed Bounds; min/max in several directions (free variables make unbounded instances)
     MILP  vtype strings 'B','I','BC','IB','CIB',... with user bounds on binaries tighter / looser than [0,1]
           (b<=0, b>=1, -1<=b<=3, b>=0.5, b<=0.5, b>=2, b<=-1) and on integers (box, fractional, none, fixed,
-          integer-free interval), as Bounds / rows / arrays; <=, >=, == coupling row; min/max
+          integer-free interval), and on the continuous entries of mixed strings (fractional lower / upper /
+          both / negative fractional, four objective directions), as Bounds / rows / arrays; <=, >=, == coupling row
     SOCP  norm (both spellings), square, sumsqr, rsocone, convex objective; feasible / infeasible / unbounded;
           continuous and mixed-integer
     EXP   exp, log, entropy, kldiv with closed-form optima; infeasible / unbounded variants
@@ -193,6 +194,9 @@ IKIND = {   # user bounds on integers
     'nofit': (0.25, 0.75),
 }
 CBOX = (-1.0, 2.0)
+CKIND = {   # user bounds on the continuous entries of a mixed-integer model (the B/I entries keep none / [-1,2])
+    'fracL': (0.5, 2.0), 'fracU': (-1.0, 1.5), 'fracLU': (0.25, 1.75), 'negfrac': (-1.5, -0.25),
+}
 VTS_Q = ['B', 'I', 'BC', 'CB', 'IB', 'CIB', 'BIC', 'BBI']
 VTS_T = VTS_Q + ['IC', 'BI', 'IIB', 'BCI', 'CBB', 'ICI']
 
@@ -240,6 +244,30 @@ def _milp_specs(thorough, pal):
                                        (bk, ik) in (('none', 'box'), ('wide', 'box'), ('le0', 'box'), ('none', 'frac')))
                                 spec['eco'] = 'limited' if lim else 'none'
                             yield spec, (style == 'B' and sense == '<=' and oi == 0 and fe == 'ro')
+    # bound objects on the CONTINUOUS columns of mixed vtype strings: fractional lower / upper / both / negative
+    # fractional, with objective directions that drive each continuous entry to either bound
+    for vt in [v for v in vts if 'C' in v]:
+        n = len(vt)
+        types = list(vt)
+        hasB, hasI = 'B' in types, 'I' in types
+        for ck, (clo, cup) in CKIND.items():
+            lbs = [clo if t == 'C' else (None if t == 'B' else -1.0) for t in types]
+            ubs = [cup if t == 'C' else (None if t == 'B' else 2.0) for t in types]
+            for style, sense in (('B', '<='), ('R', '<='), ('A', '<='), ('B', '>=')):
+                P = PAL[pal]
+                a = [[abs(P[(2 * j + len(vt)) % len(P)]) for j in range(n)]]
+                rhs = {'<=': [1.75], '>=': [-0.75]}[sense]
+                items = _mk_bounds(lbs, ubs, style) + [['row', a, sense, rhs, 'mat']]
+                for oi, (d, c) in enumerate((('min', [1.0, -0.5, 0.25]), ('max', [1.0, 0.5, 0.75]),
+                                             ('min', [-0.5, 1.0, -1.0]), ('max', [-1.0, -0.5, -0.25]))):
+                    spec = {'fe': 'ro', 'n': n, 'vt': vt, 'items': items, 'obj': [d, c[:n]],
+                            'cls': 'MILP|ro|vt=%s/n%d|B:%s|I:%s|C:%s|%s|row%s' % (vt, n, 'none' if hasB else '-',
+                                                                                'box' if hasI else '-', ck, style, sense),
+                            'sig': 'MILP|ro|vt=%s|B:%s|I:%s|C:%s|bounds-as:%s' % (vt, 'none' if hasB else '-',
+                                                                                'box' if hasI else '-', ck, style)}
+                    if hasB and hasI:
+                        spec['eco'] = 'none'
+                    yield spec, (style == 'B' and sense == '<=' and oi == 0)
 
 
 def _mk_bounds(lbs, ubs, style):
@@ -448,7 +476,7 @@ def bounds(tier):
     th = tier == 'thorough'
     return {'n_max': 3, 'lp_row_blocks_max': 3 if th else 2, 'lp_bound_kinds': len(BKL), 'lp_variants': LP_VARIANTS,
             'milp_vtype_strings': VTS_T if th else VTS_Q, 'milp_binary_bound_kinds': list(BKIND),
-            'milp_integer_bound_kinds': list(IKIND), 'palettes': 4 if th else 1,
+            'milp_integer_bound_kinds': list(IKIND), 'milp_continuous_bound_kinds': ['box'] + list(CKIND), 'palettes': 4 if th else 1,
             'interfaces': IFACES, 'front_ends': ['ro', 'lp', 'dro'] if th else ['ro', 'lp'],
             'ecos_bb_max_integer_vars': 3}
 
